@@ -6,4 +6,4 @@ _PENDING = "check not built yet in this development; to be claimed once its mode
 NOT_APPLICABLE = {("C%02d" % i): _PENDING for i in range(1, 20)}
 
 # properties whose check is finished and reviewed by the coordinator; only these are claimed in MANIFEST.json
-CLAIMED = ["C01", "C02", "C03", "C04", "C05", "C06", "C07", "C08", "C09", "C10", "C11", "C13", "C14", "C15", "C16", "C17", "C18", "C19"]
+CLAIMED = ["C01", "C02", "C03", "C04", "C05", "C06", "C07", "C08", "C09", "C10", "C11", "C12", "C13", "C14", "C15", "C16", "C17", "C18", "C19"]
